@@ -444,6 +444,37 @@ impl<'tcx> Cx<'tcx> {
                 ]));
             }
         }
+        // constants of the promoted bodies (string literals behind `&&str` etc.)
+        let mut proms = vec![];
+        for pb in tcx.promoted_mir(did).iter() {
+            let mut consts = vec![];
+            for data in pb.basic_blocks.iter() {
+                for st in data.statements.iter() {
+                    if let StatementKind::Assign(b) = &st.kind {
+                        let mut ops: Vec<&Operand<'tcx>> = vec![];
+                        match &b.1 {
+                            Rvalue::Use(op, ..) => ops.push(op),
+                            Rvalue::Aggregate(_, fs) => {
+                                for f in fs.iter() {
+                                    ops.push(f)
+                                }
+                            }
+                            Rvalue::Cast(_, op, _) => ops.push(op),
+                            _ => {}
+                        }
+                        for op in ops {
+                            if let Operand::Constant(c) = op {
+                                consts.push(s(format!("{}", c.const_)));
+                            }
+                        }
+                    }
+                }
+            }
+            proms.push(J::Arr(consts));
+        }
+        if !proms.is_empty() {
+            o.push(("promoted", J::Arr(proms)));
+        }
         if full {
             o.push(("blocks", J::Arr(blocks)));
         } else {
@@ -567,6 +598,11 @@ impl<'tcx> Cx<'tcx> {
                     return J::Obj(o);
                 }
                 let mut o = vec![("k", s("const")), ("ty", s(format!("{}", cty)))];
+                if let Const::Unevaluated(uv, _) = c.const_ {
+                    if let Some(p) = uv.promoted {
+                        o.push(("promoted", J::Int(p.as_u32() as i128)));
+                    }
+                }
                 if let Some(si) = c.const_.try_eval_scalar_int(tcx, env) {
                     let size = si.size();
                     let bits = si.to_bits(size);
